@@ -243,17 +243,17 @@ Definition shape_inj (l : list fkey) : Prop := forall f g, In f l -> In g l -> s
 
 (** after all named declarations have been matched, every key carries its own symbol *)
 Lemma marks_final decls : forall st,
-  (forall d, In d decls -> f_symbol d <> []) ->
+  (forall d, In d decls -> word_name (f_symbol d) = true) ->
   NoDup (map fst st) -> shape_inj (map fst st) -> NoDup decls ->
   (forall d, In d decls -> In d (map fst st)) ->
   (forall e, In e st -> snd e = f_symbol (fst e) \/ In (fst e) decls) ->
-  fold_left (fun l decl => match f_symbol decl with [] => l | _ => name_first l decl end) decls (map ent st)
+  fold_left (fun l decl => if word_name (f_symbol decl) then name_first l decl else l) decls (map ent st)
   = map (fun f => insp_fk f) (map fst st).
 Proof.
   induction decls as [|d decls IH]; intros st HN ND SI NDD HIN HINV.
   - simpl. rewrite map_map. apply map_ext_in. intros [f s] He. destruct (HINV _ He) as [E|[]]. simpl in E.
     unfold ent. simpl. rewrite E. destruct f; reflexivity.
-  - cbn [fold_left]. destruct (f_symbol d) as [|c0 cs] eqn:ES; [exfalso; apply (HN d (or_introl eq_refl)); exact ES|].
+  - cbn [fold_left]. rewrite (HN d (or_introl eq_refl)).
     rewrite name_first_ent. rewrite <- (mark_fst d st).
     inversion NDD as [|x xs Hx Hxs]; subst.
     apply IH.
@@ -264,7 +264,7 @@ Proof.
     + intros d' Hd'. rewrite mark_fst. apply HIN. right. exact Hd'.
     + (* the invariant *)
       assert (Hd : In d (map fst st)) by (apply HIN; left; reflexivity).
-      clear IH. revert ND SI Hd HINV. clear -Hx ES. induction st as [|[f s] st IHs]; intros ND SI Hd HINV e He; [destruct He|].
+      clear IH. revert ND SI Hd HINV. clear -Hx. induction st as [|[f s] st IHs]; intros ND SI Hd HINV e He; [destruct He|].
       simpl in He. destruct (shape_eqb f d) eqn:SH.
       * assert (f = d) by (apply SI; [left; reflexivity|exact Hd|exact SH]). subst f.
         destruct He as [<-|He].
@@ -306,9 +306,9 @@ Proof.
   - apply IH; assumption.
 Qed.
 
-(** named, distinct names that are not numbers, distinct shapes *)
+(** named with names in \w+ (others are inspected as unnamed), distinct names that are not numbers, distinct shapes *)
 Definition fks_syntactic (fks : list fkey) : bool :=
-  forallb (fun f => negb (str_eqb (f_symbol f) []) && negb (is_uint (f_symbol f))) fks
+  forallb (fun f => word_name (f_symbol f) && negb (is_uint (f_symbol f))) fks
   && nodup_strs (map f_symbol fks) && no_same_shape fks.
 
 Lemma NoDup_of_map {A B} (f : A -> B) l : NoDup (map f l) -> NoDup l.
@@ -327,7 +327,7 @@ Proof.
   unfold inspect_fks. rewrite fk_ids_numbered.
   rewrite (marks_final (t_fks t) (numbered (rev (t_fks t)) 0)).
   - rewrite numbered_fst. reflexivity.
-  - intros d Hd E. assert (X := proj1 (forallb_forall _ _) H1 d Hd). cbv beta in X. rewrite E in X. discriminate.
+  - intros d Hd. assert (X := proj1 (forallb_forall _ _) H1 d Hd). cbv beta in X. apply andb_true_iff in X. exact (proj1 X).
   - rewrite numbered_fst. apply NoDup_rev. exact ND.
   - rewrite numbered_fst. intros f g Hf Hg. apply SI; apply in_rev; assumption.
   - exact ND.
